@@ -52,6 +52,17 @@ func loadHook(spec string, log *[]og.Ref) (func(og.Ref) (any, error), error) {
 			*log = append(*log, r)
 			return userObj(i), nil
 		}, nil
+	case spec == "I":
+		// inverse of the "S" PersistentRef hook: "id<n>" -> application object n
+		return func(r og.Ref) (any, error) {
+			*log = append(*log, r)
+			if s, ok := r.Pid.(string); ok && strings.HasPrefix(s, "id") {
+				if n, err := strconv.Atoi(s[2:]); err == nil && n >= 0 && strconv.Itoa(n) == s[2:] {
+					return userObj(n), nil
+				}
+			}
+			return nil, nil
+		}, nil
 	case strings.HasPrefix(spec, "F"):
 		k, err := strconv.Atoi(spec[1:])
 		if err != nil {
@@ -59,10 +70,11 @@ func loadHook(spec string, log *[]og.Ref) (func(og.Ref) (any, error), error) {
 		}
 		return func(r og.Ref) (any, error) {
 			i := len(*log)
-			*log = append(*log, r)
 			if i == k {
+				// the failing call is not logged: the model's log lives in the state, which a failing step does not return
 				return nil, errors.New("injected load failure")
 			}
+			*log = append(*log, r)
 			return userObj(i), nil
 		}, nil
 	}
@@ -156,6 +168,8 @@ func runDecLog(pyDict, su bool, hook string, inp []byte, stream bool) (string, [
 		return showDec(v, err, p, consumedOf()), log
 	}
 	var out []string
+	var vals []any
+	var snaps []string
 	prev := 0
 	for i := 0; i < 64; i++ {
 		v, err, p := decodeOne(d)
@@ -164,6 +178,14 @@ func runDecLog(pyDict, su bool, hook string, inp []byte, stream bool) (string, [
 		prev = c
 		if err != nil || p != "" {
 			break
+		}
+		vals = append(vals, v)
+		snaps = append(snaps, render(v))
+	}
+	// values already returned must not be altered by later Decode calls
+	for i, v := range vals {
+		if render(v) != snaps[i] {
+			out = append(out, fmt.Sprintf("ALTERED#%d", i))
 		}
 	}
 	return strings.Join(out, " | "), log
@@ -303,6 +325,106 @@ func runAlloc(pyDict, su bool, inp []byte) string {
 		cls = classify(err)
 	}
 	return fmt.Sprintf("%d %s", m1.TotalAlloc-m0.TotalAlloc, cls)
+}
+
+func runConv(pyDict, su bool, inp []byte) string {
+	d := og.NewDecoderWithConfig(bytes.NewReader(inp), &og.DecoderConfig{StrictUnicode: su, PyDict: pyDict})
+	v, err, p := decodeOne(d)
+	if p != "" {
+		return "ERR PANIC:" + p
+	}
+	if err != nil {
+		return "ERR " + classify(err)
+	}
+	out := "I:"
+	if i, err := og.AsInt64(v); err == nil {
+		out += strconv.FormatInt(i, 10)
+	} else {
+		out += "ERR"
+	}
+	out += " S:"
+	if s, err := og.AsString(v); err == nil {
+		out += hexOrDash(s)
+	} else {
+		out += "ERR"
+	}
+	out += " B:"
+	if b, err := og.AsBytes(v); err == nil {
+		out += hexOrDash(string(b))
+	} else {
+		out += "ERR"
+	}
+	return out
+}
+
+func dictContents(d og.Dict) string {
+	kv := [][2]string{}
+	n := 0
+	d.Iter()(func(k, v any) bool {
+		kv = append(kv, [2]string{render(k), render(v)})
+		n++
+		return true
+	})
+	r := &renderer{}
+	return fmt.Sprintf("len=%d iter=%d %s", d.Len(), n, r.pairs("d(", kv))
+}
+
+// runDict replays a history of `S k v`, `D k`, `G k` operations (separated by " ; ") on a fresh Dict.
+func runDict(spec string) string {
+	d := og.NewDict()
+	var out []string
+	for _, op := range strings.Split(spec, " ; ") {
+		f := strings.Fields(op)
+		if len(f) < 2 {
+			return "BADCASE"
+		}
+		res := func() (res string) {
+			defer func() {
+				if r := recover(); r != nil {
+					msg := fmt.Sprint(r)
+					if i := strings.Index(msg, ":"); i >= 0 {
+						msg = msg[:i+1]
+					}
+					res = "PANIC:" + strings.ReplaceAll(msg, " ", "_") + " " + dictContents(d)
+				}
+			}()
+			switch f[0] {
+			case "S":
+				// key and value: the key is the first complete value
+				p := &parser{toks: f[1:]}
+				k, err := p.value()
+				if err != nil {
+					return "BADCASE"
+				}
+				v, err := p.value()
+				if err != nil || p.pos != len(p.toks) {
+					return "BADCASE"
+				}
+				d.Set(k, v)
+				return dictContents(d)
+			case "D":
+				k, err := parseValue(f[1:])
+				if err != nil {
+					return "BADCASE"
+				}
+				d.Del(k)
+				return dictContents(d)
+			case "G":
+				k, err := parseValue(f[1:])
+				if err != nil {
+					return "BADCASE"
+				}
+				v, ok := d.Get_(k)
+				if !ok {
+					return "get=nil " + dictContents(d)
+				}
+				return "get=" + render(v) + " " + dictContents(d)
+			}
+			return "BADCASE"
+		}()
+		out = append(out, res)
+	}
+	return strings.Join(out, " | ")
 }
 
 type chunkWriter struct {
@@ -513,6 +635,21 @@ func handle(line string) string {
 			return "ENCERR " + g[1]
 		}
 		return runDec(pd, su, "-", data, false)
+	case "conv":
+		if len(f) != 3 {
+			return "BADCASE"
+		}
+		pd, su, err := parseCfg(f[1])
+		if err != nil {
+			return "BADCASE"
+		}
+		s, err := unhexOrDash(f[2])
+		if err != nil {
+			return "BADCASE"
+		}
+		return runConv(pd, su, []byte(s))
+	case "dict":
+		return runDict(strings.TrimPrefix(line, "dict "))
 	case "long":
 		s, err := unhexOrDash(f[1])
 		if err != nil {
